@@ -97,12 +97,21 @@ def c14(tier):
             sel('funcs-pairs', 'C14', SEL(2, 'pairs', 'small', funcs=True), ['Emit'], timeout=3600)]
 
 
+def config_hist(prop, maxops, timeout=900):
+    """the Config object as a state machine (spec/Gen_Config): Set* calls in every order, before and after Parse"""
+    return [dict(kind='gen', module='Gen_Config', label='config-histories%d' % maxops, props=prop, timeout=timeout, check_count=False,
+                 constants=dict(MaxOps=maxops), invariants=['LawOrderFree', 'Emit']),
+            dict(kind='tlc', module='Gen_Config', label='config-snapshot-frozen', constants=dict(MaxOps=min(maxops, 4)), invariants=['LawOrderFree'],
+                 properties=['LawSnapshotFrozen'], timeout=timeout)]
+
+
 def c12(tier):
     if tier == 'quick':
         return [sel('funcs', 'C12', SEL(2, 'triples', 'small', funcs=True, fset='small'), ['Emit']), EXTRAS('C12'),
-                sel('omitted-root', 'C12', SEL(2, 'triples', 'tiny', spell='omit'), ['Emit'], opts='allspell=1'), traceB_eval(3000, 60000, 'C12', EVAL_ATTR)]
+                sel('omitted-root', 'C12', SEL(2, 'triples', 'tiny', spell='omit'), ['Emit'], opts='allspell=1'), traceB_eval(3000, 60000, 'C12', EVAL_ATTR)] + config_hist('C12', 4)
     return [sel('funcs', 'C12', SEL(2, 'triples', 'full', funcs=True), ['Emit'], timeout=3600),
-            sel('pairs', 'C12', SEL(2, 'pairs', 'full'), ['Emit'], timeout=3600)]
+            sel('pairs', 'C12', SEL(2, 'pairs', 'full'), ['Emit'], timeout=3600), EXTRAS('C12'),
+            sel('omitted-root', 'C12', SEL(2, 'triples', 'tiny', spell='omit'), ['Emit'], opts='allspell=1'), traceB_eval(3000, 60000, 'C12', EVAL_ATTR)] + config_hist('C12', 6, 3600)
 
 
 def c18(tier):
@@ -405,9 +414,9 @@ def c19(tier):
                     prepare=lambda sdir: vlib.write_parse_pool(sdir, size),
                     constants=dict(PoolFile='pool.ndjson', MaxCalls=calls), invariants=['LawDocumented', 'Emit'])
     if tier == 'quick':
-        return [conc_model('sequential', 1, 'P1'), ph('parse-histories3', 3, 'quick'), c19_long(3000, 200000)]
+        return [conc_model('sequential', 1, 'P1'), ph('parse-histories3', 3, 'quick'), c19_long(3000, 200000)] + config_hist('C19', 4)
     return [conc_model('sequential', 1, 'P1'), conc_mutants([('ResetParser', 1, 'P1', 'ResidueFree')]),
-            ph('parse-histories3-large-pool', 3, 'thorough', 7200), ph('parse-histories4', 4, 'quick', 14400), c19_long(3000, 200000)]
+            ph('parse-histories3-large-pool', 3, 'thorough', 7200), ph('parse-histories4', 4, 'quick', 14400), c19_long(3000, 200000)] + config_hist('C19', 6, 3600)
 
 
 def c06_sched():
